@@ -298,7 +298,7 @@ def release_case(r, ctx, i):
         text += '--- @bad\n'
     if mode in ('mid_document', 'error_mid_document'):
         text += '---\n- [a, {k: [v, w, {deep: [1, 2, 3]}]}]\n- tail\n' + ('- @bad\n' if mode == 'error_mid_document' else '')
-    pytext = '--- [!!python/name:os.path.join, !!python/tuple [1, 2], !!python/complex 1+2j, !!python/name:yaml.YAMLError]\n'
+    pytext = '---\n- !!python/name:os.path.join\n- !!python/tuple [1, 2]\n- !!python/complex 1+2j\n- !!python/name:yaml.YAMLError\n'
     for lname in yamlapi.loaders(['SafeLoader', 'CSafeLoader', 'Loader', 'CLoader', 'FullLoader', 'CFullLoader']):
         for op in OPS:
             binary = r.random() < 0.5
@@ -338,7 +338,8 @@ def release_case(r, ctx, i):
                     for _ in g:
                         pass
             except yaml.YAMLError:
-                pass
+                if mode not in ('error', 'error_mid_document'):
+                    ctx.stat('release_probe_stream_rejected')        # the probe stream is meant to be valid: a rejected one proves nothing
             except StopIteration:
                 pass
             del g
@@ -423,6 +424,8 @@ def summarize(agg, tier):
            'read_calls_logged': st.get('read_calls', 0)}
     if not st.get('read_calls') or not st.get('deliveries_checked'):
         out['_inconclusive'] = 'the instrumented stream logged no read() call / no delivery was checked'
+    elif st.get('release_probe_stream_rejected'):
+        out['_inconclusive'] = 'release probe streams that are meant to be valid were rejected (harness)'
     elif not st.get('release_probes') or not st.get('error_after_documents_checked'):
         out['_inconclusive'] = 'release or error-order probes did not run'
     return out
